@@ -140,6 +140,7 @@ func WithVars(vars map[string]any) QueryOption {
 }
 
 func New(data Map, query string, options ...QueryOption) (result *Query, err error) {
+	defer func(text string) { verifNew(&result, data, text, options, &err) }(query)
 	// building a query already evaluates FROM paths, CTEs, derived tables and joins
 	defer func() {
 		if r := recover(); r != nil {
@@ -1957,6 +1958,7 @@ func (query *Query) execAndPostProcess() (result any, err error) {
 }
 
 func (query *Query) Exec() (result []any, err error) {
+	defer func() { verifExec(query, &result, &err) }()
 	// post-processors run outside the recover of exec
 	defer func() {
 		if r := recover(); r != nil {
